@@ -27,6 +27,8 @@ V = {
     "concrete": 'pub struct Cfg;\n#[::entrait::entrait(A6)]\nfn a6(cfg: &Cfg, x: i64) -> i64 { x }',
     "mocks": '#[::entrait::entrait_export(pub A7, mock_api = A7Mock, unimock, mockall, ?Send)]\npub async fn a7<D: ::core::any::Any>(deps: &D, (a, b): (i64, i64), a7: i64) -> i64 where D: Sync { a7 }',
     "multibound": 'pub trait B0 {} pub trait B1 {} pub trait B2 {} pub trait B3 {}\n#[::entrait::entrait(pub A8)]\npub mod m8 {\n    use super::*;\n    pub fn a(deps: &(impl B0 + B1 + B3)) {}\n    pub fn b(deps: &(impl B1 + B2 + B0)) {}\n    pub fn c<D: B3 + B2>(deps: &D) where D: B0 + B3 {}\n}',
+    "mocks_gated": '#[::entrait::entrait(pub A11, mock_api = A11Mock, unimock, mockall)]\npub fn a11(deps: &impl ::core::any::Any, x: i64) -> i64 { x }',
+    "borrow": '#[::entrait::entrait(delegate_by = Borrow)]\npub trait A10 { fn m(&self, a: i64) -> i64; }',
     "rename": '#[::entrait::entrait(A9)]\nfn a9(deps: &impl ::core::any::Any, a9: i64, a9_: i64, a9__: i64, (u, v): (u8, u8)) {}',
 }
 VN = list(V)
@@ -37,6 +39,10 @@ ENVS = {
     "no_home": {"HOME": None, "USER": None},
     "epoch": {"SOURCE_DATE_EPOCH": "1", "RUSTC_BOOTSTRAP": "0"},
     "other_cwd": {"__cwd": "sub/dir"},
+    # variables that build tools / CI / docs.rs set
+    "build_env": {"DOCS_RS": "1", "CI": "true", "PROFILE": "release", "DEBUG": "false", "OPT_LEVEL": "3", "CARGO_CFG_TEST": "1",
+                  "CARGO_FEATURE_UNIMOCK": "1", "CARGO_PKG_NAME": "x", "CARGO_PRIMARY_PACKAGE": "1", "RUST_LOG": "trace", "NO_COLOR": "1",
+                  "TERM": "dumb", "ENTRAIT_DEBUG": "1", "CARGO_ENCODED_RUSTFLAGS": "--cfg\x1ftest"},
 }
 
 
